@@ -362,7 +362,8 @@ theorem lift_payload_valid (S : Schema) (doc doc' : Node) (a b depth target : Na
     rw [hflat.1, hflat.2] at this
     simpa [openValid, rightOpenValid] using this
   have hos : os ≤ fsize before := by rw [NL.fsize]; omega
-  rw [insertAt_lift S gap.content os oe NL.isCopy NR.isCopy hos] at hinsd
+  have hoe : oe ≤ fsize after := by rw [NR.fsize]; omega
+  rw [insertAt_lift S gap.content os oe NL.isCopy NR.isCopy hos hoe] at hinsd
   simp only [Except.ok.injEq, Option.some.injEq] at hinsd
   subst hinsd
   exact CL.openValid_around CR gap.content hck
